@@ -338,7 +338,7 @@ def z1_side_files(prog, ctx, wc):
     return n
 
 
-def z1_pickle_state(prog, ctx):
+def z1_pickle_state(prog, ctx, tag="Z1"):
     g = prog.func(ISO, "BasicReadAssignment.__getstate__")
     s = prog.func(ISO, "BasicReadAssignment.__setstate__")
     ret = [x for x in g.body if isinstance(x, ast.Return)]
@@ -363,14 +363,14 @@ def z1_pickle_state(prog, ctx):
     n = 0
     for i, f in enumerate(out_fields):
         if in_fields.get(i) != f:
-            ctx.fail("Z1", s, "BasicReadAssignment.__getstate__ / __setstate__", "state[%d]" % i,
+            ctx.fail(tag, s, "BasicReadAssignment.__getstate__ / __setstate__", "state[%d]" % i,
                      "pickle state position %d holds %s but is restored into %s" % (i, f, in_fields.get(i)))
         else:
-            ctx.ok("Z1", "%s:%d" % (ISO, s.lineno), "pickle state[%d] = %s both ways" % (i, f))
+            ctx.ok(tag, "%s:%d" % (ISO, s.lineno), "pickle state[%d] = %s both ways" % (i, f))
         n += 1
     extra = set(in_fields) - set(range(len(out_fields)))
     if extra:
-        ctx.fail("Z1", s, "BasicReadAssignment.__setstate__", "state%s" % sorted(extra),
+        ctx.fail(tag, s, "BasicReadAssignment.__setstate__", "state%s" % sorted(extra),
                  "__setstate__ reads positions the state tuple does not have")
     return n
 
